@@ -18,8 +18,10 @@
 package types
 
 import (
+	"bytes"
 	"encoding/base64"
 	"encoding/json"
+	"fmt"
 	"reflect"
 	"time"
 )
@@ -207,7 +209,10 @@ func (c *ColumnImage) MarshalJSON() ([]byte, error) {
 func (c *ColumnImage) UnmarshalJSON(data []byte) error {
 	var err error
 	tmpImage := make(map[string]interface{})
-	if err := json.Unmarshal(data, &tmpImage); err != nil {
+	// numbers are kept as json.Number so that 64-bit integers stay exact
+	decoder := json.NewDecoder(bytes.NewReader(data))
+	decoder.UseNumber()
+	if err := decoder.Decode(&tmpImage); err != nil {
 		return err
 	}
 	var (
@@ -218,24 +223,48 @@ func (c *ColumnImage) UnmarshalJSON(data []byte) error {
 		actualValue interface{}
 	)
 	keyType = tmpImage["keyType"].(string)
-	columnType = int16(int64(tmpImage["type"].(float64)))
+	columnTypeNum, err := tmpImage["type"].(json.Number).Int64()
+	if err != nil {
+		return err
+	}
+	columnType = int16(columnTypeNum)
 	columnName = tmpImage["name"].(string)
 	value = tmpImage["value"]
 
 	if value != nil {
 		switch JDBCType(columnType) {
 		case JDBCTypeReal: // 4 Bytes
-			actualValue = value.(float32)
+			f, err := jsonNumberToFloat64(value)
+			if err != nil {
+				return err
+			}
+			actualValue = float32(f)
 		case JDBCTypeDecimal, JDBCTypeDouble: // 8 Bytes
-			actualValue = value.(float64)
+			if actualValue, err = jsonNumberToFloat64(value); err != nil {
+				return err
+			}
 		case JDBCTypeTinyInt: // 1 Bytes
-			actualValue = int8(value.(float64))
+			n, err := jsonNumberToInt64(value)
+			if err != nil {
+				return err
+			}
+			actualValue = int8(n)
 		case JDBCTypeSmallInt: // 2 Bytes
-			actualValue = int16(value.(float64))
+			n, err := jsonNumberToInt64(value)
+			if err != nil {
+				return err
+			}
+			actualValue = int16(n)
 		case JDBCTypeInteger: // 4 Bytes
-			actualValue = int32(value.(float64))
+			n, err := jsonNumberToInt64(value)
+			if err != nil {
+				return err
+			}
+			actualValue = int32(n)
 		case JDBCTypeBigInt: // 8Bytes
-			actualValue = int64(value.(float64))
+			if actualValue, err = jsonNumberToInt64(value); err != nil {
+				return err
+			}
 		case JDBCTypeTimestamp: // 4 Bytes
 			actualValue, err = time.Parse(time.RFC3339Nano, value.(string))
 			if err != nil {
@@ -281,4 +310,24 @@ func (c *ColumnImage) GetActualValue() interface{} {
 		return value.Elem().Interface()
 	}
 	return c.Value
+}
+
+func jsonNumberToFloat64(value interface{}) (float64, error) {
+	n, ok := value.(json.Number)
+	if !ok {
+		return 0, fmt.Errorf("undo log image value %v is not a number", value)
+	}
+	return n.Float64()
+}
+
+func jsonNumberToInt64(value interface{}) (int64, error) {
+	n, ok := value.(json.Number)
+	if !ok {
+		return 0, fmt.Errorf("undo log image value %v is not a number", value)
+	}
+	if i, err := n.Int64(); err == nil {
+		return i, nil
+	}
+	f, err := n.Float64()
+	return int64(f), err
 }
